@@ -1,6 +1,6 @@
 ---------------------------- MODULE MC_Address ----------------------------
 (* exhaustive model of the address assignment design: N terminals with every pre-assignment
-   (pairwise distinct where set), a serial-number scan over all terminals or not, an
+   (also the same address in several terminals), a serial-number scan over all terminals or not, an
    initialisation task for every subset of the terminals, all interleavings *)
 EXTENDS Address
 CONSTANTS N, Lo, Hi,
@@ -8,8 +8,7 @@ CONSTANTS N, Lo, Hi,
 Kinds == {"scan", "init"}
 Ids == Kinds \X (1 .. N)
 MCInit ==
-    /\ conf \in {c \in [1 .. N -> Addrs \cup {0}] :
-                    \A t, u \in 1 .. N : (t # u /\ c[t] # 0) => c[t] # c[u]}
+    /\ conf \in [1 .. N -> Addrs \cup {0}]      \* including addresses shared by several terminals
     /\ rng = [lo |-> Lo, hi |-> Hi]
     /\ answered = {} /\ written = {} /\ used = {}
     /\ \E scan \in BOOLEAN, inits \in SUBSET (1 .. N) :
